@@ -1460,6 +1460,11 @@ func (t *itype) comparable() bool {
 }
 
 func (t *itype) assignableTo(o *itype) bool {
+	if isInterface(t) && !isInterface(o) {
+		// A value of an interface type is assignable only to an interface type (a type assertion is required otherwise).
+		return false
+	}
+
 	if t.equals(o) {
 		return true
 	}
